@@ -119,6 +119,14 @@ def host_tokens(x):
         toks += [delim(".", ctx="sel", wsmean="mustnot"), ident("a", ctx="sel", cls=True, wsmean="mustnot")]
     elif c == "descendant":
         toks += [delim(".", ctx="sel", ws=True, wsmean="must"), ident("a", ctx="sel", cls=True, wsmean="mustnot")]
+    elif c == "attr":
+        toks += [T("[", None, "[", ctx="sel", wsmean="mustnot"), ident("hidden", ctx="sel"), simple("]", ctx="sel")]
+    elif c == "attr-desc":
+        toks += [T("[", None, "[", ctx="sel", ws=True, wsmean="must"), ident("data-x", ctx="sel"), delim("=", ctx="sel"), string("1", '"', ctx="sel"), simple("]", ctx="sel")]
+    elif c == "pseudo":
+        toks += [simple(":", ctx="sel", wsmean="mustnot"), ident("hover", ctx="sel", wsmean="mustnot")]
+    elif c == "id":
+        toks += [T("idhash", "main", "#main", ctx="sel", wsmean="mustnot")]
     elif c == "list":
         toks += [simple(",", ctx="sel"), delim(".", ctx="sel", ws=True), ident("a", ctx="sel", cls=True, wsmean="mustnot")]
     return toks
